@@ -301,12 +301,41 @@ def _s(v):
 
 # ---------------------------------------------------------------- part B: lazy chunk invariant
 CHUNK_FORMATS = ['bed6', 'bed12', 'narrowpeak', 'bedgraph', 'vcf_header', 'sam', 'fastq', 'fasta2', 'gff3', 'pairs', 'chromsizes',
-                 'vcf_genotypes', 'vcf_typed']
+                 'vcf_genotypes', 'vcf_typed', 'bam']
+VIEWS_BY_FORMAT = {'bam': ['whole', 'reversed', 'tail', 'fancy']}
 VIEWS = ['whole', 'reversed', 'tail', 'first_chunk']
+
+
+_BAM = {}
+
+
+def bam_root():
+    """a small BAM written by the independent spec-level encoder (models/bam_spec.py), in a scratch file"""
+    if not _BAM:
+        import atexit
+        import os
+        import shutil
+        import tempfile
+        from models import bam_spec as S
+        recs = [S.make_record(0, 5, 60, 0, 'r1', [('M', 3)], 'ACG', [30, 31, 32]),
+                S.make_record(1, 7, 0, 16, 'read_two', [('S', 1), ('M', 2), ('I', 1)], 'TTAG', [1, 2, 3, 4], tags=S.tag_int('NM', 1)),
+                S.make_record(0, 9, 255, 99, 'q', [('M', 5)], 'ACGTN', [40, 40, 40, 40, 40]),
+                S.make_record(1, 1, 3, 0, 'r4', [('M', 1)], 'A', [10])]
+        stream, _, _ = S.encode_bam([('chr1', 100), ('chr2', 50)], recs)
+        d = tempfile.mkdtemp(dir='/dev/shm', prefix='c20bam_')
+        atexit.register(shutil.rmtree, d, True)
+        path = os.path.join(d, 'x.bam')
+        with open(path, 'wb') as f:
+            f.write(S.bgzf_compress(stream))
+        _BAM['path'] = path
+    return _BAM['path']
 
 
 def chunk_root(fmt):
     """-> (data bytes, buffer type, field names)"""
+    if fmt == 'bam':
+        from bionumpy.io.bam import BamBuffer
+        return bam_root(), BamBuffer, ['chromosome', 'name', 'flag', 'position', 'mapq', 'cigar_op', 'cigar_length', 'sequence', 'quality']
     if fmt in ('vcf_genotypes', 'vcf_typed'):
         from . import c02_vcf
         from bionumpy.io import vcf_buffers
@@ -324,6 +353,16 @@ def chunk_root(fmt):
 
 
 def read_view(data, B, view):
+    if isinstance(data, str):           # a path (BAM)
+        import bionumpy as bnp
+        t = bnp.open(data).read()
+        if view == 'reversed':
+            return t[::-1]
+        if view == 'tail':
+            return t[1:]
+        if view == 'fancy':
+            return t[np.array([3, 1, 2])]
+        return t
     r = make_reader(data, B, True)
     if view == 'first_chunk':
         return r.read_chunk(max(1, (2 * len(data)) // 3))
@@ -350,9 +389,32 @@ def raw_bytes(t):
 
 def written(t, B):
     from bionumpy.io.parser import NpBufferedWriter
+    if B.__name__.startswith('Bam'):
+        b = io.BytesIO()
+        b.name = 'x.bam'
+        NpBufferedWriter(b, B).write(t)
+        return b.getvalue()
     b = io.BytesIO()
     NpBufferedWriter(b, B).write(t)
     return b.getvalue()
+
+
+def rows_of(t, names):
+    """value of every field (nested INFO tables: their fields that can be read)"""
+    out = []
+    for n in names:
+        v = getattr(t, n)
+        if dataclasses.is_dataclass(v):
+            sub = []
+            for f in dataclasses.fields(v):
+                try:
+                    sub.append((f.name, snap(getattr(v, f.name))))
+                except Exception:
+                    sub.append((f.name, 'unreadable'))
+            out.append((n, tuple(sub)))
+        else:
+            out.append((n, snap(v)))
+    return out
 
 
 def touch(t, name):
@@ -371,6 +433,12 @@ def run_chunk_invariant(res, fmt, view, max_fields, deadline, only_hist=None):
     fields = names[-max_fields:] if max_fields and len(names) > max_fields else names
     t0 = read_view(data, B, view)
     orig_raw, orig_written = raw_bytes(t0), written(t0, B)
+    try:
+        orig_rows = rows_of(read_view(data, B, view), names)
+    except observe.ObserverError:
+        raise
+    except Exception:
+        orig_rows = None          # some field of this root cannot be read at all: judged elsewhere (C02/C05)
     seen = set()
     frontier = [()]
     feats = {'part': 'chunk', 'format': fmt, 'view': view}
@@ -415,7 +483,24 @@ def run_chunk_invariant(res, fmt, view, max_fields, deadline, only_hist=None):
                              expected='original bytes', observed=repr(e)[:300], tb=tb_string(e))
                     continue
                 r = raw_bytes(t)
-                if w != orig_written:
+                # writing compacts the lazy buffer in place: every field read AFTER the write must still have its value
+                rows_after = None
+                if orig_rows is not None:
+                    try:
+                        rows_after = rows_of(t, names)
+                    except observe.ObserverError:
+                        raise
+                    except Exception as e:
+                        res.fail('field-access-raises-after-write', case, dict(feats, last_field=h2[-1], exc=exc_name(e)),
+                                 expected='field values as before the write', observed=repr(e)[:300], tb=tb_string(e))
+                        res.outcome('AFTER-WRITE-RAISES')
+                        nxt.append(h2)
+                        continue
+                if rows_after is not None and rows_after != orig_rows:
+                    res.fail('field-values-changed-by-write', case, dict(feats, last_field=h2[-1]),
+                             expected=_s(orig_rows), observed=_s(rows_after))
+                    res.outcome('VALUES-CHANGED')
+                elif w != orig_written:
                     res.fail('written-bytes-changed-by-field-access', case, dict(feats, last_field=h2[-1]),
                              expected=orig_written.decode('latin1')[:500], observed=w.decode('latin1')[:500])
                     res.outcome('CHANGED')
@@ -432,7 +517,7 @@ def run_chunk_invariant(res, fmt, view, max_fields, deadline, only_hist=None):
             uniq.setdefault(frozenset(h), h)
         frontier = [h for k, h in uniq.items() if k not in seen]
         res.states = max(res.states, 0) + len(frontier)
-    res.sample({'format': fmt, 'view': view, 'fields': fields, 'file': data.decode('latin1')[:300]})
+    res.sample({'format': fmt, 'view': view, 'fields': fields, 'file': (data if isinstance(data, str) else data.decode('latin1'))[:300]})
 
 
 def bounds(tier, seed):
@@ -442,7 +527,7 @@ def bounds(tier, seed):
 def shards(tier, seed):
     out = [{'part': 'registry'}]
     for fmt in CHUNK_FORMATS:
-        for view in VIEWS:
+        for view in VIEWS_BY_FORMAT.get(fmt, VIEWS):
             out.append({'part': 'chunk', 'format': fmt, 'view': view, 'max_fields': 6 if tier == 'quick' else None})
     return out
 
